@@ -127,7 +127,10 @@ def _endpoints_collinear(d):
 def cases(tier):
     out = []
     if tier == "quick":
-        prod = itertools.product(list(OUTLINES), TRANSLATIONS[:3], [0, 90, 30, 123.4], MIRRORS, [100, 24], WHERE, [0.1], FMTS)
+        prod = itertools.chain(
+            itertools.product(list(OUTLINES), TRANSLATIONS[:3], [0, 90, 30, 123.4], MIRRORS, [100, 24], WHERE, [0.1], FMTS),
+            # a slice with a large viewBox (long edges, transforms that need many decimals) under generic rotations
+            itertools.product(list(OUTLINES), TRANSLATIONS[:1], [30, 123.4, 1], MIRRORS, [1000], WHERE, [0.1], FMTS))
     else:
         prod = itertools.product(list(OUTLINES), TRANSLATIONS, ROTATIONS, MIRRORS, VBS, WHERE, TOLS, FMTS)
     for o, t, r, mi, vb, w, tol, fmt in prod:
